@@ -152,6 +152,13 @@ def gen(rng, tier):
         base = S.build(rng, with_cal=with_cal, anchor=anchor if with_cal else None, with_rfc=with_rfc,
                        first_lc=rng.choice([None, 0, 1, 3, 7]))
         yield line(base, label="consistent")
+        # a metadata record whose fields are encoded with headers longer than necessary is hashed as received: still consistent
+        m = base.clone(); c = rng.choice(m.chains); i = rng.randrange(len(c.links))
+        md = tlv(0x01, b"client-%d\x00" % rng.randrange(100), force16=True) + (tlv(0x02, b"machine\x00", force16=rng.random() < 0.5) if rng.random() < 0.5 else b"")
+        md = tlv(0x1e, b"\x01" if (len(md) + 3) % 2 == 0 else b"\x01\x01", nc=1, fwd=1) + md
+        c.links[i] = S.Link(c.links[i].is_left, c.links[i].lc, "m", md)
+        m.relink()
+        yield line(m, label="consistent")
         # the order of the chains in the file does not matter
         if len(base.chains) > 1:
             sh = list(base.chains); rng.shuffle(sh)
